@@ -134,9 +134,6 @@ func c03Group(st *numgen.Static, env *numgen.Env, sd numgen.Send, group []numgen
 		}
 		asset = string(v.(numgen.VAsset))
 	}
-	if total == nil {
-		return "", ""
-	}
 	for i, p := range group {
 		if p.Amount.Sign() < 0 {
 			return "C03/negative-posting", fmt.Sprintf("posting %d of the send is negative", i)
@@ -144,6 +141,9 @@ func c03Group(st *numgen.Static, env *numgen.Env, sd numgen.Send, group []numgen
 		if p.Asset != asset {
 			return "C03/asset", fmt.Sprintf("posting %d moves %s in a %s send", i, p.Asset, asset)
 		}
+	}
+	if total == nil {
+		return "", ""
 	}
 	leaves, kept, ok := st.Leaves(sd.Dest, total, asset)
 	if !ok {
